@@ -1,12 +1,140 @@
-(* C17/Props.v -- the property theorems, and nothing else. *)
+(* C17/Props.v -- the property theorems, and nothing else.  Each is closed by [exact] of a lemma of
+   Proofs*.v and followed by Print Assumptions.
+
+   Vocabulary (Spec.v):  flat ivs = [a0; b0; a1; b1; ...] (the array selector.chunks_kept);
+   KeptAt grid s 0 ivs = "kept chunk number j is [grid[j*s], grid[j*s+1])" (read with nth_error);
+   in_some ivs t = "some kept chunk has a <= t < b";
+   Eligible c i = "spike i exists and has cluster c, lies in a kept chunk if the chunk restriction
+   is on, and is in the subset if one is given";  elig c = the increasing list of those spikes;
+   Count_Spec n E R = "R = E when n is None, n <= 0 or |E| <= n, and |R| = n otherwise". *)
 From Coq Require Import ZArith List Lia Bool Sorted.
-From PV Require Import Base.PySlice Base.NpSearch C17.Model C17.Spec C17.Proofs.
+From PV Require Import Base.PySlice Base.NpSearch C17.Model C17.Spec C17.Proofs C17.Proofs2 C17.Proofs3.
 Import ListNotations.
 Open Scope Z_scope.
 
-(* _times_in_chunks: for kept chunks a0 <= b0 <= a1 <= b1 ... (equal neighbours allowed), the
-   parity test says exactly "t lies in some kept chunk [a, b)" *)
+(* SpikeSelector.__init__: for every grid with at least one bound and every n_chunks_kept >= 1 the
+   kept chunks are the grid intervals number 0, s, 2s, ... with s = max 1 ceil(n_chunks / k), all
+   ceil(n_chunks / s) of them, and that number never exceeds k. *)
+Theorem C17_kept : forall (grid : list Z) (k : Z), 1 <= k -> 1 <= zlen grid ->
+  exists ivs, chunks_kept grid k = Some (flat ivs) /\
+    let s := stride (zlen grid - 1) k in
+    1 <= s /\ KeptAt grid s 0 ivs /\ zlen ivs = cdiv (zlen grid - 1) s /\ zlen ivs <= k.
+Proof. exact chunks_kept_spec. Qed.
+Print Assumptions C17_kept.
+
+(* the guard on n_chunks_kept is needed: 0 raises (ZeroDivisionError) *)
+Theorem C17_kept_zero_raises : forall grid : list Z, chunks_kept grid 0 = None.
+Proof. intros grid. reflexivity. Qed.
+Print Assumptions C17_kept_zero_raises.
+
+(* _times_in_chunks: for kept chunks a0 <= b0 <= a1 <= b1 ... (equal neighbours allowed: with
+   stride 1 every inner bound appears twice), the parity of searchsorted(.., 'right') says exactly
+   "t lies in some kept chunk [a, b)" *)
 Theorem C17_parity : forall (ivs : list iv) (lo t : Z), ordered lo ivs ->
   (in_chunks (flat ivs) t = true <-> in_some ivs t).
 Proof. exact parity_spec. Qed.
 Print Assumptions C17_parity.
+
+(* on a non-decreasing grid the kept chunks of C17_kept are in that order, so the parity test of
+   the selector is membership in a kept chunk *)
+Theorem C17_in_chunks : forall (grid : list Z) (k : Z), sortedZ grid -> 1 <= k -> 1 <= zlen grid ->
+  exists ivs, chunks_kept grid k = Some (flat ivs) /\
+              forall t, in_chunks (flat ivs) t = true <-> in_some ivs t.
+Proof.
+  intros grid k Hg Hk Hl. destruct (chunks_kept_spec grid k Hk Hl) as (ivs & E & HK).
+  destruct (kept_ordered grid k _ ivs Hg HK) as (lo & Ho).
+  exists ivs. split; [exact E|]. intros t. exact (parity_spec ivs lo t Ho).
+Qed.
+Print Assumptions C17_in_chunks.
+
+(* SpikeSelector.__call__, whole statement.  For EVERY oracle [choose] standing for
+   np.random.choice(ids, m, replace=False) that returns m distinct members of ids, every spike
+   time / cluster vector of equal lengths (times need not be sorted), every non-decreasing grid
+   with at least one bound, every n_chunks_kept >= 1, every count (None, <= 0, small, large), every
+   request list (empty, unknown ids, repetitions), chunk restriction on/off, optional subset
+   (any integers, repetitions allowed): the call returns an array r that
+   - is strictly increasing,
+   - contains only spikes eligible for some requested cluster (cluster, kept chunk, subset),
+   - and for each requested cluster c, the members of r with cluster c are all of elig c when the
+     count is None / <= 0 / >= |elig c|, and exactly `count` many otherwise. *)
+Theorem C17_select : forall (choose : nat -> list Z -> Z -> list Z)
+    (times clusters grid : list Z) (k : Z) (n : option Z) (req : list Z) (sc : bool)
+    (sub : option (list Z)),
+  (forall j ids m, NoDup ids -> 0 < m < zlen ids ->
+     NoDup (choose j ids m) /\ zlen (choose j ids m) = m /\ incl (choose j ids m) ids) ->
+  length times = length clusters -> sortedZ grid -> 1 <= zlen grid -> 1 <= k ->
+  exists ivs r,
+    chunks_kept grid k = Some (flat ivs) /\
+    Kept_Stride grid k (stride (zlen grid - 1) k) ivs /\
+    selector_call choose times clusters grid k n req sc sub = Some r /\
+    StronglySorted Z.lt r /\
+    (forall i, In i r -> exists c, In c req /\ Eligible times clusters ivs sc sub c i) /\
+    (forall c, In c req ->
+       Count_Spec n (elig times clusters ivs sc sub c) (filter (has_cluster clusters c) r)).
+Proof. exact selector_spec. Qed.
+Print Assumptions C17_select.
+
+(* the list [elig c] used above is exactly the set of eligible spikes, in increasing order *)
+Theorem C17_eligible_meaning : forall (times clusters : list Z) (ivs : list iv) (sc : bool)
+    (sub : option (list Z)) (c : Z),
+  StronglySorted Z.lt (elig times clusters ivs sc sub c) /\
+  forall i, In i (elig times clusters ivs sc sub c) <-> Eligible times clusters ivs sc sub c i.
+Proof.
+  intros. split; [apply elig_ss|]. intros i. rewrite elig_In. apply eligible_b_iff.
+Qed.
+Print Assumptions C17_eligible_meaning.
+
+(* unknown clusters contribute nothing: they have no eligible spike, every returned spike belongs
+   to a requested cluster that occurs in the cluster vector, and a request without any known
+   cluster (in particular the empty request) returns the empty array *)
+Theorem C17_unknown : forall (times clusters : list Z) (ivs : list iv) (sc : bool)
+    (sub : option (list Z)) (n : option Z) (req r : list Z),
+  (forall c, ~ In c clusters -> elig times clusters ivs sc sub c = []) /\
+  (Select_Spec times clusters ivs sc sub n req r ->
+     (forall i, In i r -> exists c, In c req /\ In c clusters) /\
+     ((forall c, In c req -> ~ In c clusters) -> r = [])).
+Proof.
+  intros. split; [intros c; apply elig_unknown|apply select_unknown].
+Qed.
+Print Assumptions C17_unknown.
+
+(* the boolean checkers run on the implementation's outputs imply the statements *)
+Theorem C17_checker_sound : forall (times clusters grid : list Z) (k : Z) (ivs : list iv) (sc : bool)
+    (sub : option (list Z)) (n : option Z) (req r kept : list Z),
+  (kept_spec_b grid k kept = true -> exists ivs', kept = flat ivs' /\ Kept_Spec grid k ivs') /\
+  (select_spec_b times clusters ivs sc sub n req r = true ->
+   Select_Spec times clusters ivs sc sub n req r).
+Proof.
+  intros. split; [apply kept_spec_b_sound|apply select_spec_b_sound].
+Qed.
+Print Assumptions C17_checker_sound.
+
+(* the oracle hypothesis of C17_select is satisfiable (so the theorem is not vacuous): taking the
+   first m members is one admissible np.random.choice *)
+Theorem C17_oracle_satisfiable : forall j ids m, NoDup ids -> 0 < m < zlen ids ->
+  NoDup (choose0 j ids m) /\ zlen (choose0 j ids m) = m /\ incl (choose0 j ids m) ids.
+Proof. exact choose0_ok. Qed.
+Print Assumptions C17_oracle_satisfiable.
+
+(* ---- non-vacuity: concrete, non-trivial instances ---- *)
+(* 5 chunks, 3 requested: stride 2, chunks 0, 2, 4 *)
+Example C17_ex_kept : chunks_kept [0; 10; 20; 30; 40; 50] 3 = Some [0; 10; 20; 30; 40; 50] /\
+                      chunks_kept [0; 10; 20; 30; 40; 50] 2 = Some [0; 10; 30; 40] /\
+                      chunks_kept [0; 10; 20] 7 = Some [0; 10; 10; 20].
+Proof. vm_compute. auto. Qed.
+(* spikes exactly on bounds: 0 and 30 are in, 10 and 40 are out *)
+Example C17_ex_parity :
+  map (in_chunks [0; 10; 30; 40]) [-1; 0; 9; 10; 29; 30; 39; 40; 41] =
+  [false; true; true; false; false; true; true; false; false].
+Proof. vm_compute. reflexivity. Qed.
+(* premises of C17_select hold and the call sub-samples cluster 1 (4 eligible, 2 requested),
+   takes all of cluster 2 (1 eligible: spike 5 at time 10 is on an upper bound, spike 7 is not in
+   the subset) and nothing for the unknown cluster 9 *)
+Example C17_ex_select :
+  let times := [0; 1; 5; 9; 10; 10; 30; 35; 39; 40] in
+  let clusters := [1; 1; 2; 1; 1; 2; 1; 2; 1; 1] in
+  length times = length clusters /\ sortedZ [0; 10; 20; 30; 40; 50] /\
+  elig times clusters [mkiv 0 10; mkiv 30 40] true (Some [0; 1; 2; 3; 4; 5; 6; 9]) 1 = [0; 1; 3; 6] /\
+  selector_call choose0 times clusters [0; 10; 20; 30; 40; 50] 2 (Some 2) [2; 9; 1] true
+                (Some [0; 1; 2; 3; 4; 5; 6; 9]) = Some [0; 1; 2].
+Proof. vm_compute. repeat split; repeat constructor; lia. Qed.
